@@ -473,8 +473,9 @@ func globalRebind(acc *ev.Acc) {
 
 type replayFile struct {
 	Replay struct {
-		Cfg  cfg   `json:"cfg"`
-		Path []int `json:"path"`
+		Cfg  cfg    `json:"cfg"`
+		Path []int  `json:"path"`
+		Mode string `json:"mode"`
 	} `json:"replay"`
 }
 
@@ -494,6 +495,22 @@ func main() {
 		if err != nil {
 			fmt.Fprintln(os.Stderr, err)
 			os.Exit(3)
+		}
+		if rf.Replay.Mode == "global-rebind" {
+			a := ev.NewAcc()
+			globalRebind(a)
+			for i, v := range a.Violations {
+				if i < 5 {
+					fmt.Println(v.Msg)
+				}
+			}
+			if len(a.Violations) > 0 {
+				fmt.Printf("VIOLATION property=C09 replay=%s\n", *replay)
+				os.RemoveAll(tmpRoot)
+				os.Exit(1)
+			}
+			fmt.Println("replay: property holds on every re-binding history")
+			return
 		}
 		ops := alphabet(rf.Replay.Cfg.N)
 		for i := 1; i <= len(rf.Replay.Path); i++ {
